@@ -1,9 +1,10 @@
 import DepsDev.Proofs.C03L3Npm
 
 /-!
-# C03 layer L3 for npm, operator `lt`: one comparator, prerelease candidates
+# C03 layer L3 for npm, operator `lt`: one comparator, prerelease candidates (operands without tag)
 
-See `C03L3Npm` for the statement (`L3Npm`) and the proof script.
+See `C03L3Npm` for the statements and the proof script; `C03L3NpmLtP` has the tagged operands
+and the assembled `L3Npm .lt`.
 -/
 namespace DepsDev.Proofs.C03
 
@@ -13,12 +14,6 @@ set_option linter.unusedSimpArgs false
 set_option linter.unusedVariables false
 
 theorem l3_full_lt : L3Full .lt := by l3_full
-theorem l3_pre_lt_lt : L3PreO .lt .lt := by l3_pre
-theorem l3_pre_eq_lt : L3PreO .lt .eq := by l3_pre
-theorem l3_pre_gt_lt : L3PreO .lt .gt := by l3_pre
 theorem l3_part_lt : L3Part .lt := by l3_part
-
-theorem l3_npm_lt : L3Npm .lt :=
-  l3_assemble _ l3_full_lt (l3_pre_assemble _ l3_pre_lt_lt l3_pre_eq_lt l3_pre_gt_lt) l3_part_lt
 
 end DepsDev.Proofs.C03
